@@ -1786,6 +1786,7 @@ static int asyncService_setupAsyncClient(KSI_AsyncService *service, const char *
 	int unableToParse = 0;
 	char addr[0xffff];
 	int c;
+	KSI_AsyncClient *client = NULL;
 
 	if (service == NULL || uri == NULL) {
 		res = KSI_INVALID_ARGUMENT;
@@ -1810,11 +1811,10 @@ static int asyncService_setupAsyncClient(KSI_AsyncService *service, const char *
 				goto cleanup;
 			}
 
-			service->impl_free = (void (*)(void*))KSI_AsyncClient_free;
-			res = KSI_TcpAsyncClient_new(service->ctx, (KSI_AsyncClient **)&service->impl);
+			res = KSI_TcpAsyncClient_new(service->ctx, &client);
 			if (res != KSI_OK) goto cleanup;
 
-			res = KSI_TcpAsyncClient_setService(service->impl,
+			res = KSI_TcpAsyncClient_setService(client,
 					host, port,
 					loginId != NULL ? loginId : ksi_user,
 					key != NULL ? key : ksi_pass);
@@ -1828,11 +1828,10 @@ static int asyncService_setupAsyncClient(KSI_AsyncService *service, const char *
 				if (res != KSI_OK) goto cleanup;
 			}
 
-			service->impl_free = (void (*)(void*))KSI_AsyncClient_free;
-			res = KSI_HttpAsyncClient_new(service->ctx, (KSI_AsyncClient **)&service->impl);
+			res = KSI_HttpAsyncClient_new(service->ctx, &client);
 			if (res != KSI_OK) goto cleanup;
 
-			res = KSI_HttpAsyncClient_setService(service->impl,
+			res = KSI_HttpAsyncClient_setService(client,
 					strlen(addr) ? addr : uri,
 					loginId != NULL ? loginId : ksi_user,
 					key != NULL ? key : ksi_pass);
@@ -1846,9 +1845,15 @@ static int asyncService_setupAsyncClient(KSI_AsyncService *service, const char *
 			goto cleanup;
 	}
 
+	/* Attach the client to the service only after it has been completely configured. */
+	service->impl_free = (void (*)(void*))KSI_AsyncClient_free;
+	service->impl = client;
+	client = NULL;
+
 	res = KSI_OK;
 cleanup:
 
+	KSI_AsyncClient_free(client);
 	KSI_free(schm);
 	KSI_free(ksi_user);
 	KSI_free(ksi_pass);
